@@ -232,13 +232,13 @@ func checkField(queryValue, fieldValue interface{}) bool {
 		switch e := elem.(type) {
 		case int:
 			for _, val := range v {
-				if checkIntMatch(int64(val.(int)), fieldNumList) {
+				if n, ok := val.(int); ok && checkIntMatch(int64(n), fieldNumList) {
 					return true
 				}
 			}
 		case float64:
 			for _, val := range v {
-				if checkFloatMatch(val.(float64), fieldFloatList) {
+				if x, ok := val.(float64); ok && checkFloatMatch(x, fieldFloatList) {
 					return true
 				}
 			}
